@@ -30,7 +30,7 @@ MANIFEST = {
                   "dispatch tables is local (never looks behind the bytes it consumes) and print-then-parse holds for every leaf "
                   "kind (decoder applied to the encoder's bytes returns the same value, for all values the decoder can return); "
                   "for esds the exactness guard (hence C01_tree / C01_fixpoint) asks that every descriptor size field is in the encoder's form and "
-                  "that no UnknownData was kept (C01_esds_core; others are explored, C01_esds_slconfig_size_refuted); "
+                  "that no UnknownData was kept (C01_esds_core; others are explored; C01_esds_slconfig_size_fixed); "
                   "every excluded shape / defect class is witnessed by a *_refuted theorem; complete real files (an init segment and a "
                   "media segment of /repo testdata) decode inside Coq, are exact and re-encode to themselves (C01_real_*). EXPLORATION "
                   "for every other registered box type (all ~150 reached through harvested testdata boxes, hand-written seeds, "
